@@ -41,6 +41,7 @@ VARIABLES st,      \* [Tasks -> [Types -> 0..] ]  current environment
           nsid, nops, actor, obs
 
 vars == <<st, on, ms, tg, frames, base, pc, grp, caught, prep, nsid, nops, actor, obs>>
+PrepUpd == 98      \* block id of the prepared update object (99: its second, overlapping use)
 NoPrep == [st |-> "none", kind |-> "none", sup |-> <<>>, sid |-> 0]
 
 Pair == Types \X Vals
@@ -119,7 +120,7 @@ Enter(t, kind, direct, disp) ==
 (* the block object is made (ctx.scope(...) / ctx.updated(...) evaluated) and kept for later; nothing is entered *)
 Prepare(t, kind, direct) ==
   /\ Prep /\ Op(t) /\ prep.st = "none"
-  /\ prep' = [st |-> "ready", kind |-> kind, sup |-> direct, sid |-> IF kind = "update" THEN 0 ELSE nsid + 1]
+  /\ prep' = [st |-> "ready", kind |-> kind, sup |-> direct, sid |-> IF kind = "update" THEN PrepUpd ELSE nsid + 1]
   /\ nsid' = IF kind = "update" THEN nsid ELSE nsid + 1
   /\ UNCHANGED <<st, on, ms, tg, frames, base, pc, grp, caught>>
   /\ Observe
@@ -157,11 +158,20 @@ GenCloseForeign(u) ==
   /\ Observe
 
 (* a second attempt to enter the same async scope object - while it is still open, or after it was left - is refused
-   (the refusal shows where a catch-all would show an exception) and the task's context is what it was *)
+   (the refusal shows where a catch-all would show an exception) and the task's context is what it was.
+   A prepared UPDATE object that is in use - entered by some task and not left yet - and is entered once more (by the same
+   or by another task, their blocks overlapping): either that is refused and nothing changes for anybody, or it is a
+   block of its own for the entering task - then each of the two is left like any other block, in whichever order, and
+   each task gets back exactly the context it had (Restored).  (After it was left an update object may be used again.) *)
+PrepOpen(sid) == \E w \in Tasks : \E i \in DOMAIN frames[w] : frames[w][i].sid = sid
 ReEnter(t) ==
-  /\ Op(t) /\ prep.st = "used" /\ prep.kind = "ascope"
-  /\ caught' = [caught EXCEPT ![t] = "refused"]
-  /\ UNCHANGED <<st, on, ms, tg, frames, base, pc, grp, prep, nsid>>
+  /\ Op(t) /\ prep.st = "used"
+  /\ \/ /\ prep.kind = "ascope" \/ (prep.kind = "update" /\ PrepOpen(PrepUpd) /\ ~PrepOpen(PrepUpd + 1))
+        /\ caught' = [caught EXCEPT ![t] = "refused"]
+        /\ UNCHANGED <<st, on, ms, tg, frames, base, pc, grp, prep, nsid>>
+     \/ /\ prep.kind = "update" /\ PrepOpen(PrepUpd) /\ ~PrepOpen(PrepUpd + 1)      \* (not bounded by MaxDepth: the bound is no part of the statement)
+        /\ EnterWith(t, "update", prep.sup, PrepUpd + 1)
+        /\ UNCHANGED <<base, pc, grp, caught, prep, nsid>>
   /\ Observe
 
 Live(s) == {u \in Tasks : grp[u] = s /\ pc[u] = "gate"}
@@ -238,7 +248,7 @@ Next == \E t \in Tasks :
 Spec == Init /\ [][Next]_vars
 
 -----------------------------------------------------------------------------
-TypeOK == /\ \A t \in Tasks : pc[t] \in {"unborn", "gate", "done"} /\ Len(frames[t]) <= MaxDepth
+TypeOK == /\ \A t \in Tasks : pc[t] \in {"unborn", "gate", "done"} /\ Len(frames[t]) <= MaxDepth + 1   \* (+1: a prepared update let in once more)
 
 (* C01 / C03, stated over the frame stack and the inherited snapshot, not over the merged
    environment: the innermost enclosing block of the task's own chain that supplied exactly T,
